@@ -39,7 +39,7 @@ func gen(t *rapid.T) Case {
 		All:       rapid.IntRange(0, 3).Draw(t, "all") == 0,
 	}
 	// a type parameter named like the source package would shadow the qualifier the probe itself needs
-	o := progen.Opts{Avoid: map[string]bool{"tparamname:mock": true}}
+	o := progen.Opts{Avoid: map[string]bool{"tparamname:mock": true}, CrossEmbed: true}
 	if r.InPackage() && rapid.IntRange(0, 2).Draw(t, "unexported") == 0 {
 		o.AllowUnexported = true
 	}
